@@ -33,7 +33,10 @@ try:
     touched = sh("git diff --name-only")[1]
     if "coresimd" in touched:
         log["build_core_simd"] = sh("cargo +nightly build --offline --features core-simd")[0]
+    # the demo may need optional features: keep it out of the way while the pinned suite builds all targets
+    os.rename(os.path.join(wt, "examples", "seeded_demo.rs"), os.path.join(wt, "seeded_demo.rs.tmp"))
     rc, out = sh("cargo nextest run --workspace --no-fail-fast --offline")
+    os.rename(os.path.join(wt, "seeded_demo.rs.tmp"), os.path.join(wt, "examples", "seeded_demo.rs"))
     log["suite_with_change"] = {"exit": rc, "summary": [l for l in out.splitlines() if "Summary" in l or "tests run" in l][-1:]}
     rc, out = sh("cargo %srun --offline --example seeded_demo %s" % (toolchain, " ".join(demo_args)))
     log["demo_with_change"] = {"exit": rc, "tail": out[-400:]}
